@@ -541,6 +541,10 @@ class FileSession(Session):
 
     def _exists(self):
         path = self._get_file_path()
+        if path.endswith(self.LOCK_SUFFIX):
+            # 'session-<id>.lock' is the lock file of session <id>,
+            # not a session: never adopt such an id from a cookie.
+            return False
         return os.path.exists(path)
 
     def _load(self, path=None):
